@@ -28,7 +28,9 @@ RULE = ("trajectories are lists of float32 bit patterns drawn per magnitude clas
         "_format_83 and of the 8.3 fields/rounding ties/signed zeros/clustered for XTC runs/over the field limit) "
         "x frames 1..6 x atoms {1..30} x cell {none, ortho, triclinic, per-frame} x times {default, non-uniform}; one hot coordinate per decade 1e-3..1e7 nm for both signs and cell lengths per decade 1..1e4 nm (text formats; oracle: refused or "
         "written correctly), the refusal limits of every fixed-width field +-6 ulp; dilute systems whose neighbour spacing "
-        "puts the XTC small-size index on every slot of magicints[]; a history axis (object saved / box vectors, volumes, periodic "
+        "puts the XTC small-size index on every slot of magicints[]; per-frame cell series mixing kinds (ortho->triclinic, triclinic->ortho, one triclinic frame in the middle, a single box "
+        "component varying); time stamps given in the constructor / assigned after a time-less construction / re-assigned / "
+        "inherited through slice and join; a history axis (object saved / box vectors, volumes, periodic "
         "distances evaluated with an initial cell, then the cell replaced via unitcell_vectors, unitcell_lengths+angles, in-place "
         "and per-frame in-place assignment) before the saves; "
         "each is saved in every extension of Trajectory._savers (gro precision, pdb ter/header/bfactors varied); "
@@ -469,6 +471,26 @@ def gen_traj(rng, cls, n_atoms, n_frames, cell, times, slot=None):
         tj["time"] = ts
     if cell == "none":
         tj["cell"] = None
+    elif cell in ("mix_ot", "mix_to", "mix_mid", "vary1"):
+        # per-frame series that mix cell KINDS inside one trajectory, or vary a single box component
+        l0 = [f2b(rng.uniform(2.0, 9.0)) for _ in range(3)]
+        ortho, tric = [f2b(90.0)] * 3, [f2b(80.0), f2b(95.5), f2b(100.25)]
+        comp = rng.randrange(6)
+        L, A = [], []
+        for i in range(n_frames):
+            if cell == "vary1":
+                li, ai = list(l0), list(tric if comp % 2 else ortho)
+                if comp < 3:
+                    li[comp] = f2b(b2f(l0[comp]) + 0.375 * i)
+                else:
+                    ai[comp - 3] = f2b(b2f(ai[comp - 3]) + 2.5 * i)
+            else:
+                is_tric = {"mix_ot": i > 0, "mix_to": i == 0, "mix_mid": i == n_frames // 2}[cell]
+                li, ai = list(l0), list(tric if is_tric else ortho)
+            L.append(li)
+            A.append(ai)
+        tj["cell"] = {"lengths": L, "angles": A, "kind": "tric" if any(b2f(a) != 90.0 for r in A for a in r) else "perframe",
+                      "series": cell}
     else:
         L, A = [], []
         l0 = [f2b(rng.uniform(2.0, 9.0)) for _ in range(3)]
@@ -540,7 +562,9 @@ def build_trajs(ctx):
             nf = rng.randint(1, 2)
         else:
             nf = rng.randint(1, 6)
-        cell = ["none", "ortho", "tric", "perframe"][(i // 2) % 4]
+        cell = ["none", "ortho", "tric", "perframe", "mix_ot", "mix_to", "mix_mid", "vary1"][(i // 2) % 8]
+        if cell.startswith("mix") or cell == "vary1":
+            nf = max(nf, 3)
         times = "default" if rng.random() < 0.25 else "nonuniform"
         trajs.append(gen_traj(rng, cls, na, nf, cell, times))
     # dilute systems: the XTC small-size index starts at every slot of magicints[] (thorough: all of 9..64, quick: a
@@ -602,6 +626,14 @@ def build_trajs(ctx):
                                        "kind": "ortho"} if k % 2 else None})
         ctx.notes.setdefault("coverage_extra", {})["exhaustive_boundary_sweep"] = {
             "boundaries": [float(c) for c in bounds], "ulps": [-6, 6], "exhaustive": True}
+    # how the object got its time stamps: constructor, assigned after a time-less construction, re-assigned, or
+    # inherited through slicing / joining (the stamps are the same in every case)
+    ths = ["direct", "assign", "reassign", "slice", "join", "assign", "stack_slice"]
+    k = 0
+    for tj in trajs:
+        if tj.get("time") is not None and tj["cls"] != "probe":
+            tj["time_hist"] = ths[k % len(ths)]
+            k += 1
     sid = 0
     for tj in trajs:
         tj["saves"] = saves_for(rng, tj, quick)
@@ -1146,7 +1178,7 @@ def check_restart(ctx, jobs, case, tj, sv, res, mem, rst_obs):
                 tfile = Fr(lines[1][5:].strip())
                 cfile = None
                 if len(lines) - 1 == 2 + nl + 1:
-                    cfile = [Fr(lines[2 + nl][k:k + 12].strip()) for k in range(0, 36, 12)]
+                    cfile = [Fr(lines[2 + nl][k:k + 12].strip()) for k in range(0, 72, 12)]
             else:
                 r = raw[fn]
                 c = r["coordinates"]
@@ -1155,8 +1187,9 @@ def check_restart(ctx, jobs, case, tj, sv, res, mem, rst_obs):
                 tfile = fr32(t["b"][0]) if t["w"] == 32 else fr64(t["b"][0])
                 cfile = None
                 if "cell_lengths" in r:
-                    cl = r["cell_lengths"]
-                    cfile = [fr32(b) if cl["w"] == 32 else fr64(b) for b in cl["b"]]
+                    cl, ca = r["cell_lengths"], r["cell_angles"]
+                    cfile = [fr32(b) if cl["w"] == 32 else fr64(b) for b in cl["b"]] + \
+                            [fr32(b) if ca["w"] == 32 else fr64(b) for b in ca["b"]]
         except Exception as e:      # noqa: BLE001
             if in_field_range(tj, ext, sv["opts"]):
                 tie_break(ctx, case, "layout[%s]" % ext, "cannot read %s independently: %r" % (fn, e))
@@ -1169,8 +1202,9 @@ def check_restart(ctx, jobs, case, tj, sv, res, mem, rst_obs):
         ti = pi if pi in tis else (tis[0] if tis else 999)
         ci = None
         if cfile is not None and tj["cell"]:
-            def cdist(i):
-                return sum(abs(fr32(a) * 10 - b) for a, b in zip(mem["lengths"][3 * i:3 * i + 3], cfile))
+            def cdist(i):      # lengths (angstrom) and angles (degrees) of frame i against the file's cell
+                return (sum(abs(fr32(a) * 10 - b) for a, b in zip(mem["lengths"][3 * i:3 * i + 3], cfile[:3])) +
+                        sum(abs(fr32(a) - b) for a, b in zip(mem["angles"][3 * i:3 * i + 3], cfile[3:])))
             best = min(range(T), key=cdist)
             ci = pi if cdist(pi) == cdist(best) else best
         elif cfile is not None:
